@@ -71,6 +71,7 @@ fn run_one(engine: &str, family: &str, seed: u64, keep: bool) -> RunResult {
 
 fn main() {
     let args = Args::from_env();
+    vharness::common::install_discarding_logger();
     exec::install_panic_hook();
     let property = args.get_or("property", "C01");
     let tier = args.get_or("tier", "quick");
